@@ -6,6 +6,7 @@ import (
 	"encoding/base64"
 	"errors"
 	"fmt"
+	"io"
 	"reflect"
 	"strconv"
 	"strings"
@@ -829,14 +830,10 @@ func (c CustomExtension) Builder() (cert.ExtensionBuilder, error) {
 func readRawString(s string) ([]byte, error) {
 	if strings.HasPrefix(s, binaryPrefix) {
 		b64Str := strings.TrimPrefix(s, binaryPrefix)
-		dec := base64.NewDecoder(base64.StdEncoding, strings.NewReader(b64Str))
-
-		b := make([]byte, len(b64Str))
-		n, err := dec.Read(b)
-		if err != nil {
-			return nil, err
+		if len(b64Str) == 0 {
+			return nil, io.EOF
 		}
-		return b[:n], nil
+		return base64.StdEncoding.DecodeString(b64Str)
 	} else if s == emptyPrefix {
 		//maybe this is unnecessary
 		return make([]byte, 0), nil
